@@ -1925,11 +1925,17 @@ impl FunctionCompiler<'_> {
                 self.compile_global(tfqn, no_load)
             }
             hir::Expr::Member { previous, name, .. } => {
+                let previous_ty = self.tys[self.loc][previous];
+
                 if self.tys[self.loc][expr].is_zero_sized() {
+                    // there's nothing to load, but whatever is in front of the `.`
+                    // still happens (`arr[next()].nothing` calls `next` and checks the index)
+                    if !matches!(previous_ty.as_ref(), Ty::File(_)) {
+                        self.compile_expr_with_args(previous, true);
+                    }
                     return None;
                 }
 
-                let previous_ty = self.tys[self.loc][previous];
                 match previous_ty.as_ref() {
                     Ty::File(file) => {
                         let fqn = Fqn {
@@ -1982,6 +1988,11 @@ impl FunctionCompiler<'_> {
                                 // address of a field it returns the actual address of that field in
                                 // the struct or slice, so here we have to fake it by allocating
                                 // enough extra space on the stack for the len if we need to.
+
+                                // the array itself isn't needed for its len,
+                                // but it still gets evaluated (`arr[next()].len`)
+                                self.compile_expr_with_args(previous, true);
+
                                 if no_load {
                                     let ss = self.builder.create_sized_stack_slot(StackSlotData {
                                         kind: StackSlotKind::ExplicitSlot,
